@@ -215,16 +215,26 @@ def specs(prop='C17'):
         ctx.assume(and_(0 <= qmin, qmin <= qmax))
 
         class Bag:
-            """tagss / matches: an opaque collection (content irrelevant to the rewind / balance obligations)"""
+            """tagss / matches: an opaque collection (content irrelevant to the rewind / balance obligations): reading an
+            element gives any object ever put into it or an unknown one, emptiness is unknown"""
+            seen = []
 
             def append(self, x):
-                pass
+                Bag.seen.append(x)
 
             def insert(self, i, x):
-                pass
+                Bag.seen.append(x)
 
             def _sym_delitem(self, i):
                 pass
+
+            def _sym_truth(self):
+                return truth(ctx.bool(ctx.fresh_name('bag_nonempty')))
+
+            def _sym_getitem(self, i):
+                cands = [x for k, x in enumerate(Bag.seen) if not any(x is y for y in Bag.seen[:k])] + [SObj('unknown_elem', {})]
+                return cands[choose('bag_elem', len(cands))]
+        Bag.seen = []
         bag_states = []
         real_new = st._get('new_tagss')
 
